@@ -53,6 +53,8 @@ def Judge (cs : List Con) : Op → Out → Prop
   | .solution _ _ extra, .err .unsat => ¬ Satisfiable (cs ++ extra)
   | .isTrue c extra, .bool b => (b = true → ∀ a, Models (cs ++ extra) a → c.sem a = true)
   | .isFalse c extra, .bool b => (b = true → ∀ a, Models (cs ++ extra) a → c.sem a = false)
+  | .isTrue _ extra, .err .unsat => ¬ Satisfiable (cs ++ extra)
+  | .isFalse _ extra, .err .unsat => ¬ Satisfiable (cs ++ extra)
   | _, _ => False
 
 /-! ### the same test over an explicit list of assignments (driver) -/
@@ -111,6 +113,8 @@ def judgeFin (dom : List Asg) (cs : List Con) (op : Op) (out : Out) : Option Str
   | .min _ extra _, .err .unsat => chk (modelsOn dom (cs ++ extra)).isEmpty "spurious-unsat"
   | .max _ extra _, .err .unsat => chk (modelsOn dom (cs ++ extra)).isEmpty "spurious-unsat"
   | .solution _ _ extra, .err .unsat => chk (modelsOn dom (cs ++ extra)).isEmpty "spurious-unsat"
+  | .isTrue _ extra, .err .unsat => chk (modelsOn dom (cs ++ extra)).isEmpty "spurious-unsat"
+  | .isFalse _ extra, .err .unsat => chk (modelsOn dom (cs ++ extra)).isEmpty "spurious-unsat"
   | .unsatCore _, .cons _ => none
   | _, .err .giveUp => none
   | _, _ => some "unexpected-outcome"
